@@ -47,7 +47,7 @@ Judge ==
   /\ Clause("PrimaryIsNearestCentre", Len(TO) = 0 \/ (Len(FO) > 0 /\ Close(FO[1], TO[1])))
   /\ Clause("XOrderedByPsi", Obs.tie = 1 \/ \A a, b \in 1..Len(FX) : \A ka, kb \in XI : (a < b /\ Close(FX[a], TX[ka]) /\ Close(FX[b], TX[kb]) /\ ka # kb) => ka < kb)
   \* what TokamakEquilibrium makes of them
-  /\ Clause("DecisionAsDeclared",
+  /\ Clause("DecisionAsDeclared", Obs.notok = 1 \/
         LET want == KindOf(XI, XF) IN
         IF want = "refused" THEN Obs.tok.outcome = "refused"
         ELSE /\ Obs.tok.outcome = "ok"
